@@ -40,8 +40,10 @@ TABLE = {
            ("KeystoneParse.v", ["parse_links_tree"])]),
  "C07": dict(
    intro="C07 -- an entity reference is equivalent to its replacement text written in place.\n   Machine level: processing pre ++ mid ++ post inline equals processing pre, then mid as an entity value\n   (its own stream, entity mode), then post -- for attribute values and for character data -- provided no\n   CR LF pair is split by a cut (XML 2.11 normalises line ends per entity; the two *_split_crlf lemmas show\n   the proviso is necessary).  On the model: at an entity reference the loops really run the replacement\n   text in place (norm_attr_entity_step, text_loop_entity_step); the first declaration of a name wins.\n   Whole documents on the fragment of Spec/CstEnt.v (the CstText fragment plus an internal DTD subset declaring general\n   entities, references in content and in attribute values, nested up to the documented limits, re-declarations):\n   sem c is DEFINED as the meaning of the document with every reference replaced by its (first-declared) replacement\n   text, computed on the abstract syntax; parse (render c) yields exactly that (parse_render_sem_ent_partial), so two\n   documents that differ only in what is routed through entities (hoist_insensitive_partial), and a document and its\n   fully inlined DOCTYPE-free version (inlined_equiv_partial), give identical trees.  The\n   unrestricted theorems cover entities whose replacement text contains markup (elements with attributes, comments, PIs,\n   CDATA, text, further references), with text merging across entity boundaries; their size hypotheses are on the meaning\n   (an entity can multiply nodes).  The `_partial` variants (character-data entities) keep the input-length hypothesis.\n   Excluded by wf_doc, each with its reason in Spec/CstEnt.v: the CR LF proviso, D15 (the known finding), character\n   references to TAB / LF / CR / '&' / '<' inside entity values (declaration-time vs use-time reading).\n   The same WITH NAMESPACES AND UNICODE (Spec/CstFullS4.v, on the CstFull frame): entity values are character data or\n   items with qualified names, namespace declarations and attributes; the meaning inlines first and resolves namespaces\n   afterwards, i.e. in the scope of the place of REFERENCE -- parse_render_sem_full_s4, hoist_insensitive_full_s4.\n   With allow_dtd = false the same rendering gives Err DtdDetected (dtd_refused, markup entities included).",
-   imports=["From RX.Spec Require Import Text.", "From RX.Spec Require Cst CstText CstEnt.", "From RX.Proofs Require Import TextMachine HoistProofs RejectProofs CstMain CstTextSem CstEntSem CstEntDoc CstEntMain CstEntCMain.", "From RX.Spec Require CstFull CstFullS4.", "From RX.Proofs Require CstNsView CstFullS4Main.", "From RX.Spec Require CstFull CstFullS4 CstFullS6.", "From RX.Proofs Require CstNsView CstFullS6Main CstFullRejSem CstFullS6Sanity KnownFindingsD15."],
-   groups=[("KnownFindingsD15.v", ["d15_refuted", "d15_outside_class", "hoist_outside_d15", "ninline_extends"], "Import RX.Spec.CstFull. Import RX.Spec.CstFullS4. Import RX.Spec.CstFullS6. Import RX.Proofs.CstNsView. Import RX.Proofs.CstFullS6Main. Import RX.Proofs.CstFullRejSem. Import RX.Proofs.CstFullS6Sanity. Import RX.Proofs.KnownFindingsD15."),
+   imports=["From RX.Spec Require Import Text.", "From RX.Spec Require Cst CstText CstEnt.", "From RX.Proofs Require Import TextMachine HoistProofs RejectProofs CstMain CstTextSem CstEntSem CstEntDoc CstEntMain CstEntCMain.", "From RX.Spec Require CstFull CstFullS4.", "From RX.Proofs Require CstNsView CstFullS4Main.", "From RX.Spec Require CstFull CstFullS4 CstFullS6.", "From RX.Proofs Require CstNsView CstFullS6Main CstFullRejSem CstFullS6Sanity KnownFindingsD15 TextMachine KnownFindingsMore CstFullD15Main."],
+   groups=[("KnownFindingsMore.v", ["d15b_refuted", "lt_at_depth_refused", "d30_refuted", "d30_explained", "text_hoist_with_refs_refuted", "d29_d30_outside_fragments"], "Import RX.Spec.CstFull. Import RX.Spec.CstFullS4. Import RX.Spec.CstFullS6. Import RX.Proofs.CstNsView. Import RX.Proofs.TextMachine. Import RX.Proofs.KnownFindingsMore.", "CHECK"),
+           ("CstFullD15Main.v", ["d15_rejected"], "Import RX.Spec.CstFull. Import RX.Spec.CstFullS4. Import RX.Spec.CstFullS6. Import RX.Proofs.CstNsView. Import RX.Proofs.CstFullS6Main. Import RX.Proofs.CstFullRejSem. Import RX.Proofs.KnownFindingsD15. Import RX.Proofs.CstFullD15Main.", "CHECK"),
+           ("KnownFindingsD15.v", ["d15_refuted", "d15_outside_class", "hoist_outside_d15", "ninline_extends"], "Import RX.Spec.CstFull. Import RX.Spec.CstFullS4. Import RX.Spec.CstFullS6. Import RX.Proofs.CstNsView. Import RX.Proofs.CstFullS6Main. Import RX.Proofs.CstFullRejSem. Import RX.Proofs.CstFullS6Sanity. Import RX.Proofs.KnownFindingsD15."),
            ("CstFullS4Main.v", ["parse_render_sem_full_s4", "hoist_insensitive_full_s4"], "Import RX.Spec.CstFull. Import RX.Spec.CstFullS4. Import RX.Proofs.CstNsView. Import RX.Proofs.CstFullS4Main."),
            ("CstEntCMain.v", ["parse_render_sem_ent", "hoist_insensitive", "inlined_equiv"], "Module E := CstEnt."),
            ("CstEntMain.v", ["parse_render_sem_ent_partial", "hoist_insensitive_partial", "inlined_equiv_partial", "dtd_refused"]),
@@ -51,7 +53,7 @@ TABLE = {
            ("RejectProofs.v", ["find_entity_first", "ok_refs_defined_first"], "Local Notation token := Tokenizer.token.")]),
  "C08": dict(
    intro="C08 -- ill-formed documents are rejected.  (1) the three character classes are the Fifth Edition\n   productions for every scalar value (tables regenerated from the source on every run);\n   (2) local rejection theorems, 'accepted implies constraint': comment bodies, ']]>' in text, misplaced\n   declaration, '<' in attribute values, every consumed character is a Char, end tags match the open\n   element and cannot close an element opened outside the current entity, reserved prefixes and URIs,\n   entity references are declared (first declaration wins), and the document-level token shape: only\n   comments / PIs (and entity declarations) before the root, at most one root element, only\n   comments / PIs after it.  (3) Soundness against the grammar on the byte fragment that Spec/Cst.v covers\n   (in_fragment, Proofs/CstSound.v: printable ASCII / TAB / LF, no '&', no ':', no '<!D' '<![' '<?xml' 'xmlns';\n   attrs_raw: no attribute value was normalised): every ACCEPTED input is the rendering of a well-formed abstract\n   document (parse_sound_fragment) -- the parser accepts nothing outside the grammar there -- and its tree is that\n   document's meaning (parse_sound_and_complete).  (4) Truncation: for EVERY accepted document (DOCTYPE and entity expansion included) and\n   every cut (on a character boundary) before the end of its root element, the prefix is rejected\n   (truncation_rejected; root_element_end d and firstn_N are defined in Proofs/TruncMain.v).  (5) Soundness over\n   Unicode (in_fragment_u, Proofs/CstSoundU.v: valid UTF-8, no CR, '&', ':', '<!D', '<![', '<?xml', 'xmlns', no leading\n   BOM): every accepted input is the rendering of a well-formed document of Spec/CstU.v (parse_sound_fragment_u).\n   (6) Soundness with references and CDATA (in_fragment_t, Proofs/CstSoundT.v: printable ASCII / TAB / LF, '&' and\n   '<![' allowed, numeric references denote scalar values -- the documented U+FFFD leniency excluded): every accepted input\n   is the rendering of a well-formed document of Spec/CstText.v, with NO condition on the result (parse_sound_fragment_t).\n   (7) Namespace constraints at document level (Spec/CstNs.v): a syntactically well-formed document that violates one of\n   N1-N7 (undeclared prefix, duplicate declaration, duplicate attribute by expanded name, misuse of xml / xmlns prefixes\n   and URIs) is rejected with one of the namespace error variants (ns_violation_rejected).  (8) Soundness WITH NAMESPACES\n   (in_fragment_n, Proofs/CstSoundN.v: valid UTF-8, qualified names and xmlns declarations allowed, references and CDATA\n   allowed; no CR, DOCTYPE, XML declaration, BOM; numeric references scalar; no leading-colon names and no colon in PI\n   targets -- two leniencies, each with its Example): every accepted input is the rendering of a well-formed document of\n   Spec/CstFull.v stage S2, hence satisfies N1-N7 on normalised URIs; the resource bounds of the completeness theorem\n   follow from acceptance (parse_sound_fragment_n_res), so the parsed tree IS the document's meaning\n   (parse_sound_and_complete_n).  (9) Soundness WITH THE PROLOG AND ENTITIES (in_fragment_p, Proofs/CstSoundP.v: BOM, XML\n   declaration, DOCTYPE with every kind of declaration, character-data general entities declared AND used; conditions P1-P8\n   on the bytes, each leniency with its Example): every accepted input is the rendering of a well-formed document of\n   Spec/CstFullS5.v (parse_sound_fragment_p) -- this covers misplaced / repeated XML declarations, undefined references,\n   recursion, '<' reaching an attribute value through an entity, and the DTD syntax.",
-   imports=["From RX.Spec Require Chars.", "From RX.Spec Require Cst.", "From RX.Proofs Require Import CharTablesProofs RejectProofs WfParseTok WfParseChars WfParse CstSound CstSoundDoc CstSoundCor TruncMain TruncDtdMain CstSoundU CstSoundUDoc CstSoundUCor CstSoundT CstSoundTDoc CstSoundTCor NsRejDefs NsRejBuild NsRejMain CstNsView CstFullMain CstSoundN CstSoundNDoc CstSoundNCor.", "From RX.Spec Require CstU CstText CstNs CstFull CstFullS5.", "From RX.Proofs Require CstSoundP CstSoundPRDoc CstSoundPRCor.", "From RX.Spec Require CstFullS4 CstFullS6.", "From RX.Proofs Require KnownFindingsD21 CstSound6P CstSound6 CstSound6U CstSound6uCor CstFullS6Main CstFullRejSem CstFullRejTrace CstFullRejDoc CstFullRejMain CstFullNsRejMain."],
+   imports=["From RX.Spec Require Chars.", "From RX.Spec Require Cst.", "From RX.Proofs Require Import CharTablesProofs RejectProofs WfParseTok WfParseChars WfParse CstSound CstSoundDoc CstSoundCor TruncMain TruncDtdMain CstSoundU CstSoundUDoc CstSoundUCor CstSoundT CstSoundTDoc CstSoundTCor NsRejDefs NsRejBuild NsRejMain CstNsView CstFullMain CstSoundN CstSoundNDoc CstSoundNCor.", "From RX.Spec Require CstU CstText CstNs CstFull CstFullS5.", "From RX.Proofs Require CstSoundP CstSoundPRDoc CstSoundPRCor.", "From RX.Spec Require CstFullS4 CstFullS6.", "From RX.Proofs Require KnownFindingsMore KnownFindingsD21 CstSound6P CstSound6 CstSound6U CstSound6uCor CstFullS6Main CstFullRejSem CstFullRejTrace CstFullRejDoc CstFullRejMain CstFullNsRejMain."],
    groups=[("CharTablesProofs.v", ["char_tables_conform", "byte_tables_conform", "byte_space_conform", "byte_char_agree"]),
            ("RejectProofs.v", ["ok_comment_body", "ok_text_no_cdata_end", "ok_pi_not_declaration", "ok_no_lt_in_attr", "skip_chars_only_chars",
                                "skip_chars_only_chars_text", "consume_chars_only_chars", "ok_tags_balanced", "ok_reserved_names",
@@ -68,16 +70,18 @@ TABLE = {
            ("CstSoundPRCor.v", ["parse_sound_and_complete_p"], "Import RX.Spec.CstFull. Import RX.Spec.CstFullS5. Import RX.Proofs.CstNsView. Import RX.Proofs.CstSoundP. Import RX.Proofs.CstSoundPRCor."),
            ("CstSound6P.v", ["parse_sound_fragment_6_on_p", "parse_sound_and_complete_6_on_p"], "Import RX.Spec.CstFull. Import RX.Spec.CstFullS5. Import RX.Spec.CstFullS6. Import RX.Proofs.CstNsView. Import RX.Proofs.CstSoundP. Import RX.Proofs.CstSound6P."),
            ("CstSound6uCor.v", ["parse_sound_fragment_6u", "parse_sound_and_complete_6u"], "Import RX.Spec.CstFull. Import RX.Spec.CstFullS5. Import RX.Spec.CstFullS6. Import RX.Proofs.CstNsView. Import RX.Proofs.CstSoundP. Import RX.Proofs.CstSound6. Import RX.Proofs.CstSound6U. Import RX.Proofs.CstSound6uCor."),
+           ("KnownFindingsMore.v", ["d27_refuted", "d28_refuted", "d29_refuted"], "Import RX.Proofs.CstNsView. Import RX.Proofs.KnownFindingsMore.", "CHECK"),
            ("KnownFindingsD21.v", ["d21_refuted", "d21_wf_for_spec", "d21_outside_class", "d21_outside_class_variant"], "Import RX.Spec.CstNs. Import RX.Proofs.NsRejDefs. Import RX.Proofs.NsRejBuild. Import RX.Proofs.NsRejMain. Import RX.Proofs.KnownFindingsD21."),
            ("NsRejMain.v", ["ns_violation_rejected"], "Import CstNs."),
            ("CstFullNsRejMain.v", ["ns_violation_rejected_full_s6"], "Import RX.Spec.CstFull. Import RX.Spec.CstFullS4. Import RX.Spec.CstFullS6. Import RX.Proofs.CstNsView. Import RX.Proofs.CstFullS6Main. Import RX.Proofs.NsRejDefs. Import RX.Proofs.NsRejBuild. Import RX.Proofs.CstFullRejSem. Import RX.Proofs.CstFullRejTrace. Import RX.Proofs.CstFullRejDoc. Import RX.Proofs.CstFullRejMain. Import RX.Proofs.CstFullNsRejMain.")]),
  "C03": dict(
    intro="C03 -- elements, comments and PIs mirror the document's logical structure.  Lexer post-conditions\n   (with a token recorder as callback): a comment token's text is exactly the source between '<!--' and\n   '-->'; a PI's target and value are the source strings (value without leading whitespace, None when\n   empty); CDATA / text tokens are their source slices; the DOCTYPE and the prolog / epilog deliver only\n   comments, PIs (and entity declarations); a start tag delivers ElementStart, attributes, one ElementEnd.\n   The XML declaration has no callback at all.  Document-level token shape: Proofs/RejectProofs.v.\n   Completeness on the fragment of Spec/Cst.v (ASCII names and content, no DOCTYPE, references, namespaces, CR): every\n   rendering of a well-formed abstract document -- with any layout choices: whitespace in tags, quote style,\n   empty-element syntax, prolog / epilog comments and PIs -- parses to exactly its meaning (view = sem:\n   kinds, names, attributes in order with values, comment text, PI target / value, text, children counts), so two\n   renderings with the same meaning give the same tree (layout_insensitive).  view is defined in Proofs/CstMain.v.\n   The same over Unicode (Spec/CstU.v: names, values, text, comments, PIs are lists of scalar values in the 5th-edition\n   Name / Char classes, rendered in UTF-8): parse_render_sem_u, layout_insensitive_u, render_valid_utf8.\n   The largest fragment (Spec/CstFull.v stage S3 = Unicode + namespaces + pieces + character-data entities, pinned under\n   C06) extended by the whole PROLOG (Spec/CstFullS5.v): byte order mark, XML declaration, DOCTYPE with external id and an\n   internal subset holding every kind of declaration (general / parameter / external / unparsed entities, ELEMENT /\n   ATTLIST / NOTATION, comments and PIs -- which become nodes under the Root), CR in markup whitespace:\n   parse_render_sem_full_s5 and prolog_insensitive_full_s5 (same meaning => same tree, whatever the prolog).\n   THE CAPSTONE (Spec/CstFullS6.v): S4's entities (character data or markup with qualified names, resolved at the place\n   of reference) inside S5's prolog, CR in markup whitespace everywhere -- ONE statement for the whole supported subset:\n   parse_render_sem_full_s6; same meaning => same tree whatever the distribution over entities, the prolog and the layout\n   (hoist_prolog_insensitive_full_s6); S4 and S5 embed with the same rendering and meaning (s4_in_s6, s5_in_s6), hence\n   so do S1..S3.  What S6 still excludes is listed in the spec files: CR inside comment / PI bodies (admitted by S7), '%' and character references to TAB / LF / CR / '&' / '<' inside entity literals, colons\n   in DOCTYPE / entity names, the CR LF proviso and D15.",
-   imports=["From RX.Spec Require Cst.", "From RX.Spec Require CstU CstNs CstFull CstFullS5.", "From RX.Proofs Require Import LexerProofs RejectProofs CstMain CstUMain.", "From RX.Proofs Require CstNsView CstFullMain CstFullS5 CstFullS6Main CstFullS6Embed5.", "From RX.Spec Require CstFullS4 CstFullS6.", "From RX.Proofs Require ApiViewAcc ApiView ApiViewProofs ApiViewCapstone.", "From RX.Spec Require CstFullS7 CstFullS8.", "From RX.Proofs Require CstFullS7Main CstFullS8Main."],
+   imports=["From RX.Spec Require Cst.", "From RX.Spec Require CstU CstNs CstFull CstFullS5.", "From RX.Proofs Require Import LexerProofs RejectProofs CstMain CstUMain.", "From RX.Proofs Require CstNsView CstFullMain CstFullS5 CstFullS6Main CstFullS6Embed5.", "From RX.Spec Require CstFullS4 CstFullS6.", "From RX.Proofs Require ApiViewAcc ApiView ApiViewProofs ApiViewCapstone.", "From RX.Spec Require CstFullS7 CstFullS8 CstFullS9.", "From RX.Proofs Require CstFullS7Main CstFullS8Main CstFullS9Main."],
    groups=[("CstMain.v", ["parse_render_sem", "layout_insensitive"]),
            ("ApiViewCapstone.v", ["parse_render_sem_full_s6_api", "hoist_prolog_insensitive_full_s6_api"], "Import RX.Spec.CstFull. Import RX.Spec.CstFullS6. Import RX.Proofs.ApiView. Import RX.Proofs.ApiViewProofs. Import RX.Proofs.ApiViewCapstone."),
            ("ApiViewProofs.v", ["api_view_agrees", "api_view_defined"], "Import RX.Proofs.ApiViewAcc. Import RX.Proofs.ApiView. Import RX.Proofs.ApiViewProofs."),
            ("CstFullS7Main.v", ["parse_render_sem_full_s7", "parse_render_sem_full_s7_api", "s6_in_s7"], "Import RX.Spec.CstFull. Import RX.Spec.CstFullS6. Import RX.Spec.CstFullS7. Import RX.Proofs.CstNsView. Import RX.Proofs.ApiView. Import RX.Proofs.CstFullS7Main."),
+           ("CstFullS9Main.v", ["parse_render_sem_full_s9", "s8_in_s9"], "Import RX.Spec.CstFull. Import RX.Spec.CstFullS6. Import RX.Spec.CstFullS8. Import RX.Spec.CstFullS9. Import RX.Proofs.CstNsView. Import RX.Proofs.ApiView. Import RX.Proofs.CstFullS9Main."),
            ("CstFullS8Main.v", ["parse_render_sem_full_s8", "s7_in_s8"], "Import RX.Spec.CstFull. Import RX.Spec.CstFullS6. Import RX.Spec.CstFullS7. Import RX.Spec.CstFullS8. Import RX.Proofs.CstNsView. Import RX.Proofs.ApiView. Import RX.Proofs.CstFullS8Main."),
            ("CstUMain.v", ["render_valid_utf8", "parse_render_sem_u", "layout_insensitive_u"]),
            ("CstFullS6Main.v", ["parse_render_sem_full_s6", "hoist_prolog_insensitive_full_s6", "s4_in_s6"], "Import RX.Spec.CstFull. Import RX.Spec.CstFullS4. Import RX.Spec.CstFullS6. Import RX.Proofs.CstNsView. Import RX.Proofs.CstFullS6Main."),
